@@ -125,12 +125,15 @@ class Token(BaseException):
 class World:
     """two connected mock providers with their roots created; user operations; snapshots"""
 
-    def __init__(self, flavour):
+    def __init__(self, flavour, hash_funcs=None):
         from cloudsync.providers.mock import MockProvider
         self.fl = flavour
         self.provs = []
         for side in (0, 1):
-            p = MockProvider(flavour.oip[side], flavour.cs[side], filter_events=flavour.filt)
+            kw = {}
+            if hash_funcs is not None and hash_funcs[side] is not None:
+                kw["hash_func"] = hash_funcs[side]      # providers whose content hashes are of different types
+            p = MockProvider(flavour.oip[side], flavour.cs[side], filter_events=flavour.filt, **kw)
             p.connect({"key": "val"})
             self.provs.append(p)
         self.raw = []
